@@ -23,3 +23,21 @@ package backends
 //@   ensures THEMESSAGE: [C02] result.0 != nil ==> result.0 == lastcall("GetMessage", 0) && lastcall("GetMessage", 1) == nil && result.1 == nil
 //@   loop for
 //@     invariant BUF: len(buf) == 65536 && buf != nil
+
+// ---- C02 / C07 / C17: the UDP listener hands each datagram to its session as an own copy of exactly the bytes read
+// ---- (any length from 0), never panics on one, and every place where its goroutine can block also waits on the
+// ---- backend's context
+//@ func (*UDPListener).Start$1
+//@   tags C02 C07 C17
+//@   safetytags C07
+//@   safety slice index
+//@   site call copy WHOLEDATAGRAM: [C02] requires len(arg0) == n && ref(arg1) == ref(buf) && n == lastcall("ReadFromUDP", 0) && lastcall("ReadFromUDP", 2) == nil
+//@   site block * EXITS: [C17] requires waits(ctxdone(ctx))
+//@   loop for
+//@     invariant BUF: len(buf) == 65536 && buf != nil
+
+//@ func (*UDPListenerSession).Send
+//@   tags C02
+//@   requires ns != nil && ns.li != nil
+//@   site call WriteToUDP ASGIVEN: [C02] requires arg1 == data && arg2 == ns.raddr
+//@   ensures COMPLETE: [C02] result == nil ==> lastcall("WriteToUDP", 0) == len(data)
